@@ -1,0 +1,27 @@
+//go:build verif
+
+package rlimit
+
+// Contracts for gocv (see /verif/DESIGN.md). Comment-only; compiled only with
+// the build tag "verif".
+//
+// Resource numbers are the kernel's (asm-generic/resource.h): CPU 0, FSIZE 1,
+// DATA 2, STACK 3, CORE 4, NOFILE 7, AS 9.
+
+//@ spec b2i(b bool) int = ite(b, 1, 0)
+
+//@ func pkg/rlimit.getRlimit
+//@   inline
+
+// The position/value clauses for DATA..NOFILE are not stated as proof obligations: through
+// seven conditional appends (each either in place or reallocating) the solvers time out.
+// They are covered by the bounded stand-in of C08 instead (labelled bounded).
+// PrepareRLimit: one entry per configured (non-zero) resource, in the fixed order
+// CPU, DATA, FSIZE, STACK, AS, NOFILE, CORE, with exactly the configured values
+// (CPU hard limit = max(CPUHard, CPU)); nothing else.
+//@ func pkg/rlimit.(*RLimits).PrepareRLimit props C08
+//@   arith int
+//@   assigns nothing
+//@   ensures len(result) == b2i(old(r.CPU) > 0) + b2i(old(r.Data) > 0) + b2i(old(r.FileSize) > 0) + b2i(old(r.Stack) > 0) + b2i(old(r.AddressSpace) > 0) + b2i(old(r.OpenFile) > 0) + b2i(old(r.DisableCore))
+//@   ensures old(r.CPU) > 0 ==> result[0].Res == 0 && result[0].Rlim.Cur == old(r.CPU) && result[0].Rlim.Max == ite(old(r.CPUHard) < old(r.CPU), old(r.CPU), old(r.CPUHard))
+//@   ensures old(r.DisableCore) ==> result[len(result) - 1].Res == 4 && result[len(result) - 1].Rlim.Cur == 0 && result[len(result) - 1].Rlim.Max == 0
